@@ -66,6 +66,7 @@ func runC10(c *Ctx) {
 		fl := p.NewFlow(rnl)
 		isPC := func(n ast.Node) bool { return fl.containsCall(n, "internal/parser.ContentReader.parseComments") }
 		linesPublishedBlanked(c, "C10-R1", rnl)
+		c02WholeLinesR(c, "C10-R1")
 		// after the fill, every normal exit with a non-empty buffer passes parseComments
 		fills := fl.Find(func(n ast.Node) bool {
 			as, ok := n.(*ast.AssignStmt)
@@ -128,7 +129,11 @@ func runC10(c *Ctx) {
 		})
 		if writes {
 			_, ok := allowedBuf[fi.Name]
-			c.Check(ok, "C10-R1", "writer of ContentReader.buf: "+fi.Name, fi.Decl.Pos(), allowedBuf[fi.Name], "r.buf is written outside fill/consume/blank")
+			why := allowedBuf[fi.Name]
+			if !ok && c10IsBlanker(fi) {
+				ok, why = true, "blank elements (every store writes the constant ' ')"
+			}
+			c.Check(ok, "C10-R1", "writer of ContentReader.buf: "+fi.Name, fi.Decl.Pos(), why, "r.buf is written outside fill/consume/blank")
 		}
 	}
 	// Read copies only from r.buf
@@ -306,7 +311,16 @@ func runC10(c *Ctx) {
 			}
 			if snap != nil {
 				isBlank := func(n ast.Node) bool {
-					return fl.containsCall(n, "internal/parser.ContentReader.emptyCurrentLine")
+					found := false
+					inspectNoLit(n, func(m ast.Node) bool {
+						if call, ok := m.(*ast.CallExpr); ok {
+							if callee := p.FuncOf(Callee(info, call)); callee != nil && c10IsBlanker(callee) {
+								found = true
+							}
+						}
+						return true
+					})
+					return found
 				}
 				reach, at := fl.Reach(snap.After(), func(Site) bool { return false }, true, PathQ{
 					Avoid: isBlank,
@@ -321,10 +335,6 @@ func runC10(c *Ctx) {
 							case *ast.Ident:
 								if info.Uses[x] == excluded {
 									return 1
-								}
-							case *ast.SelectorExpr:
-								if fieldSel(info, x, CR, "inBegin") {
-									return -1
 								}
 							case *ast.UnaryExpr:
 								if x.Op == token.NOT {
@@ -365,10 +375,6 @@ func runC10(c *Ctx) {
 								return true
 							}
 							if fieldSel(info, e, CR, "skipNext") && !a.Truth {
-								return true
-							}
-							// inside an ignore/begin block the whole block is handled by R4
-							if fieldSel(info, e, CR, "inBegin") && a.Truth {
 								return true
 							}
 						}
@@ -500,4 +506,38 @@ func runC10(c *Ctx) {
 		}
 		c.Check(bad == "", "C10-R3", "blanking path never reslices or appends to r.buf", ecl.Decl.Pos(), "length preserved", "r.buf is reassigned at "+bad+" between read and publish (line length changes)")
 	}
+}
+
+// c10IsBlanker: a method of ContentReader all of whose stores into r.buf are
+// element stores of the blank character (and there is at least one).
+func c10IsBlanker(fi *FuncInfo) bool {
+	if fi == nil || fi.Decl.Body == nil {
+		return false
+	}
+	info := fi.Pkg.TypesInfo
+	n, good := 0, 0
+	ast.Inspect(fi.Decl.Body, func(nd ast.Node) bool {
+		as, ok := nd.(*ast.AssignStmt)
+		if !ok {
+			return true
+		}
+		for i, l := range as.Lhs {
+			root := l
+			isElem := false
+			if ix, ok := l.(*ast.IndexExpr); ok {
+				root, isElem = ix.X, true
+			}
+			if !fieldSel(info, root, "internal/parser.ContentReader", "buf") {
+				continue
+			}
+			n++
+			if isElem && i < len(as.Rhs) {
+				if tv, ok := info.Types[as.Rhs[i]]; ok && tv.Value != nil && tv.Value.ExactString() == "32" {
+					good++
+				}
+			}
+		}
+		return true
+	})
+	return n >= 1 && n == good
 }
